@@ -29,6 +29,8 @@ def run(ctx):
         for _ in range(2 if ctx.quick() else 4):
             m, how = xzgen.mutate(rng, f)
             blobs.append(m); meta.append(('mutant:' + how, d, None))
+        m, how = xzgen.mutate_chunk(rng, f)
+        blobs.append(m); meta.append(('mutant:' + how, d, None))
     for p in sorted(glob.glob(os.path.join(REPO, 'tests/files/*.xz'))):
         blobs.append(open(p, 'rb').read()); meta.append(('testfile:' + os.path.basename(p), '', None))
     spec = oracle_dec(orc, 'xzdec 1', blobs)
@@ -63,6 +65,37 @@ def run(ctx):
                 why = why or '%s: output delivered before the error is not a prefix of the specified decoding' % tag
         if why:
             mism.append(dict(kind=kind, desc=d, why=why, file=b.hex(), spec=[st, used, len(out)], impl=list(i[:4]), impl_sliced=list(i3[:4])))
+    # ---- .lzma streams produced by the MODEL encoder from arbitrary symbol sequences (valid, and invalid from some symbol
+    # on: distances / reps reaching outside the history, also as the very first symbol); library vs specification,
+    # one-shot, byte-wise and randomly sliced
+    glines, gm = [], []
+    for _ in range(120 if ctx.quick() else 3000):
+        lc = rng.randrange(5); lp = rng.randrange(5 - lc); pb = rng.randrange(5)
+        toks = xzgen.gen_symbols(rng, rng.choice([1, 2, 3, 8, 30, rng.randrange(1, 120)]), p_bad=rng.choice([0, 0.5, 1.0]))
+        glines.append('lzmaenc %d %d %d %s' % (lc, lp, pb, ' '.join(toks))); gm.append((lc, lp, pb, toks))
+    gouts, gf = run_lines(orc, glines)
+    if gf: raise BuildError('oracle failed %r' % (gf[0],))
+    ablobs, ameta = [], []
+    for (lc, lp, pb, toks), hx in zip(gm, gouts):
+        raw = bytes.fromhex(hx)
+        ablobs.append(xzgen.alone_wrap(raw, lc, lp, pb, rng.choice([4096, 65536]))); ameta.append(' '.join(toks)[:300])
+        if rng.random() < 0.2:
+            r2 = bytearray(raw); r2[0] = rng.randrange(1, 256)
+            ablobs.append(xzgen.alone_wrap(bytes(r2), lc, lp, pb)); ameta.append('rc-first-byte-nonzero ' + ' '.join(toks)[:200])
+    aspec = oracle_dec(orc, 'alonedec 0', ablobs)
+    for mode_, sd in ((0, 0), (1, 0), (3, 11), (3, 12)):
+        aimpl, af = impl_dec(drv, 3, 0, mode_, (lambda i: i * 5 + sd) if mode_ == 3 else 0, ablobs)
+        for f in af: ctx.violation('alone decoder crashed / sanitizer report on a model-generated stream', {'line': (f[0] or '')[:100000], 'stderr': f[1], 'rc': f[2], 'kind': 'sanitizer'})
+        for b, lab, sp, im in zip(ablobs, ameta, aspec, aimpl):
+            if im is None: continue
+            n_eval += 1
+            st, used, out = sp; ret, tin, tout, calls, o = im
+            kinds['lzma:' + st] = kinds.get('lzma:' + st, 0) + 1
+            why = None
+            if not same_verdict(st, ret): why = 'lzma_alone_decoder (mode %d) returned %d, the specification says %s' % (mode_, ret, st)
+            elif st == 'ok' and (o != out or tin != used): why = 'lzma_alone_decoder (mode %d): output/consumed differ from the specification (out %d vs %d, in %d vs %d)' % (mode_, len(o), len(out), tin, used)
+            elif st != 'ok' and not (out.startswith(o) or o.startswith(out)): why = 'lzma_alone_decoder (mode %d): output before the error is not a prefix of the specified decoding' % mode_
+            if why: mism.append(dict(kind='model-generated .lzma', desc=lab, why=why, file=b.hex(), spec=[st, used, len(out)], impl=list(im[:4]), impl_sliced=[]))
     ctx.cov['evaluations'] = n_eval
     ctx.cov['distinct_nontrivial'] = len(distinct)
     ctx.cov['rule'] = ('valid files: 1-3 Streams with padding, 0-3 Blocks, 1-4 filters (delta, 7 BCJ, LZMA2 with all lc/lp/pb), sizes present/absent, header padding, all 16 check ids, '
